@@ -15,14 +15,21 @@
       derivative by exactly `γ = dist/(dist + 1e-12)`, `1/(1+1e-6) ≤ γ < 1` (`gamma_bounds`);
     * `kgrad_linear_eq`, `kgrad_guard_free`: `Linear` and every tree without a distance-based leaf
       carry no factor at all (γ = 1): `kGrad` is the exact derivative;
-    * `kgrad_add_rule … kgrad_pow_rule`: a sum / product / power (base > 0) node combines its operands'
-      gradients by the exact sum / product / chain rule (no further factor, γ = 1), so the only
+    * `kgrad_add_rule … kgrad_pow_rule`, `kgrad_pow_rule_nonzero`: a sum / product / power node combines its
+      operands' gradients by the exact sum / product / chain rule (no further factor, γ = 1; for a power:
+      whenever the base value is non-zero — NEGATIVE values included — or the exponent is ≥ 1), so the only
       deviation of `kGrad` from the true gradient is the per-leaf factor γ;
     * `kgrad_close_directional / _partial`: consequently, for EVERY tree, `kGrad` is within
       `1e-6 · devBound` of the true derivative, `devBound` = the sum of the absolute contributions of the
       distance-based leaves — the exact content of "agrees with autodiff / finite differences";
-    * `kgrad_pow_base_nonpos`: the guard `where(base_k > 0, …, 0.0)` of `Pow.k_grad` — a power node whose base
-      value is not positive (float64: underflowed) has gradient exactly `0`, for every exponent;
+    * powers (`Pow.k_grad`, guard `where((base_k == 0) & (p < 1), 0.0, p·base^(p−1)·base_grad)`):
+      `kgrad_pow_base_zero_lt1` — a base value that is exactly `0` (float64: underflowed) under `p < 1` gives
+      gradient exactly `0`; `kgrad_pow_guard_inactive(_of_ne)` — for every other base value the chain-rule
+      formula is returned unchanged; `kgrad_pow_nat_directional / _partial`, `kgrad_pow_linear_eq` — for a
+      natural-number exponent `m ≥ 1` that formula IS the derivative of `y ↦ k_base(x, y)^m` for a base value
+      of ANY sign (negative, zero, positive); `Regular` (the hypothesis of the tree-level theorems) asks of
+      a power node: base value > 0, or exponent a natural number ≥ 1 (`regular_of_smooth`: syntactic form
+      that admits `Linear` under natural powers);
     * `kgrad_inactive_zero`, `kgrad_finite_coincident`, `kgrad_length`.
 -/
 import MellonProofs.KernelGradCloseLemmas
@@ -135,8 +142,11 @@ theorem kgrad_is_guarded_recursion (c : Cov ℝ) (x y : List ℝ) : c.kGrad x y 
 /-- **Every tree, every direction.**  With exact division the recursion (sum rule, product rule,
     chain rule through powers, scatter-add of the operands' gradients at every node) gives the
     directional derivative of `y ↦ k(x, y)`:  `d/dt k(x, y + t·u)|₀ = ⟨kGradE 0 c x y, u⟩`.
-    Hypotheses: equal widths, indices in range (`WF`), `RatQuad` with `α > 0` and positive bases under
-    powers (`Regular`; implied by `Positive`, see `regular_of_positive`). -/
+    Hypotheses: equal widths, indices in range (`WF`), `RatQuad` with `α > 0`, and at every power node
+    a positive base value OR a natural-number exponent `m ≥ 1` over a base value of any sign (`Regular`;
+    implied by `Positive` and by `Smooth`, see `regular_of_positive`, `regular_of_smooth`).  What is still
+    excluded: a non-integer (or `< 1`) exponent over a base value `≤ 0` — there `base ** p` is `nan` in
+    float64 (negative base) or not differentiable (zero base). -/
 theorem kgrad_exact_directional (c : Cov ℝ) (x y u : List ℝ) (hxy : x.length = y.length)
     (hu : u.length = y.length) (hwf : c.WF y.length = true) (hreg : c.Regular x y) :
     HasDerivAt (fun t => c.k x (lineAt y u t)) (dot (c.kGradE 0 x y) u) 0 :=
@@ -150,6 +160,14 @@ theorem kgrad_exact_partial (c : Cov ℝ) (x y : List ℝ) (j : Nat) (hxy : x.le
 
 theorem regular_of_positive (c : Cov ℝ) (h : c.Positive) (x y : List ℝ) : c.Regular x y :=
   Cov.Positive.regular h x y
+
+/-- `Smooth`: any tree in which every `RatQuad` has `α > 0` and every power node has an everywhere-positive
+    base or a natural-number exponent `m ≥ 1` (over any base, `Linear` included) is `Regular` at every
+    pair of points — so `kgrad_exact_*`, `kgrad_close_*`, `kgrad_guard_free` apply to `Linear ** 2`,
+    `(Linear + c) ** 3`, `(Linear * Matern52) ** 2 + …` at points with negative, zero and positive base
+    values alike. -/
+theorem regular_of_smooth (c : Cov ℝ) (h : c.Smooth) (x y : List ℝ) : c.Regular x y :=
+  Cov.Smooth.regular h x y
 
 /-! ### the factor γ on the distance-based leaves; no factor elsewhere -/
 
@@ -253,34 +271,154 @@ theorem kgrad_mulC_rule (l : Cov ℝ) (c : ℝ) (ad : ActiveDims) (x y u : List 
   rw [dot_expand_select ad y u _ hu, dot_map_left (fun lg => lg * c) c (by intro gi; ring)]
   ring
 
-theorem kgrad_pow_rule (l : Cov ℝ) (p : ℝ) (ad : ActiveDims) (x y u : List ℝ) (hu : u.length = y.length)
-    (hb : 0 < l.k (select ad x) (select ad y)) :
+/-- Chain rule at a power node, base value `≠ 0` (NEGATIVE values included) or exponent `≥ 1`: the coded
+    gradient is `p · base^(p−1) · (base gradient)`, nothing is zeroed. -/
+theorem kgrad_pow_rule_nonzero (l : Cov ℝ) (p : ℝ) (ad : ActiveDims) (x y u : List ℝ) (hu : u.length = y.length)
+    (hb : l.k (select ad x) (select ad y) ≠ 0 ∨ 1 ≤ p) :
     dot ((Cov.pow l p ad).kGrad x y) u
       = p * (l.k (select ad x) (select ad y)) ^ (p - 1)
           * dot (l.kGrad (select ad x) (select ad y)) (select ad u) := by
-  simp only [Cov.kGrad, rpow_real, hb, if_true]
+  simp only [Cov.kGrad, rpow_real, if_neg (powGuard_inactive hb)]
   rw [dot_expand_select ad y u _ hu,
     dot_map_left (fun bg => p * l.k (select ad x) (select ad y) ^ (p - 1) * bg)
       (p * l.k (select ad x) (select ad y) ^ (p - 1)) (by intro gi; ring)]
 
-/-- **The guard of `Pow.k_grad`** (`where(base_k > 0, …, 0.0)`): where the base kernel value is not
-    positive — over ℝ never for `Positive` operands; in float64 where the base underflowed to `0.0` —
-    the gradient of the power node is exactly `0` in every entry, for EVERY exponent `p` (in particular
-    `p < 1`, where `p · 0^(p−1) · 0` would be `∞ · 0`).  This is the "finite everywhere" clause for powers. -/
-theorem kgrad_pow_base_nonpos (l : Cov ℝ) (p : ℝ) (ad : ActiveDims) (x y : List ℝ)
-    (hb : ¬ 0 < l.k (select ad x) (select ad y)) :
+theorem kgrad_pow_rule (l : Cov ℝ) (p : ℝ) (ad : ActiveDims) (x y u : List ℝ) (hu : u.length = y.length)
+    (hb : 0 < l.k (select ad x) (select ad y)) :
+    dot ((Cov.pow l p ad).kGrad x y) u
+      = p * (l.k (select ad x) (select ad y)) ^ (p - 1)
+          * dot (l.kGrad (select ad x) (select ad y)) (select ad u) :=
+  kgrad_pow_rule_nonzero l p ad x y u hu (Or.inl (ne_of_gt hb))
+
+/-- **The guard of `Pow.k_grad`** (`where((base_k == 0) & (p < 1), 0.0, …)`): where the base kernel value
+    is exactly `0` — in float64 where the base underflowed to `0.0` — and the exponent is `p < 1` (where
+    `p · 0^(p−1) · 0` would be `∞ · 0 = nan`), the gradient of the power node is exactly `0` in every
+    entry.  This is the "finite everywhere" clause for powers.
+    (The earlier guard `where(base_k > 0, …, 0.0)` zeroed the gradient for EVERY non-positive base value and
+    every exponent; that statement is false for the present code, see `kgrad_pow_negative_base_example`.) -/
+theorem kgrad_pow_base_zero_lt1 (l : Cov ℝ) (p : ℝ) (ad : ActiveDims) (x y : List ℝ)
+    (hb : l.k (select ad x) (select ad y) = 0) (hp : p < 1) :
     ∀ v ∈ (Cov.pow l p ad).kGrad x y, v = 0 := by
-  rw [kGrad_eq_kGradE]; exact kGradE_pow_nonpos_zero _ l p ad x y hb
+  rw [kGrad_eq_kGradE]; exact kGradE_pow_zero_lt1_zero _ l p ad x y hb hp
+
+/-- The guard of the model (`¬ 0 < b ∧ ¬ b < 0`, the model has `<` only) is `b = 0` over ℝ. -/
+theorem kgrad_pow_guard_iff (b p : ℝ) : ((¬ (0 < b) ∧ ¬ (b < 0)) ∧ p < 1) ↔ (b = 0 ∧ p < 1) :=
+  powGuard_iff b p
 
 /-- … and the guarded value is what the chain rule gives whenever the chain rule applies: for a
     positive base the guard is inactive (`kgrad_pow_rule`), so `kgrad_exact_partial` covers power nodes
-    of every exponent under `Regular` (base > 0). -/
+    of every exponent under a positive base. -/
 theorem kgrad_pow_guard_inactive (l : Cov ℝ) (p : ℝ) (ad : ActiveDims) (x y : List ℝ)
     (hb : 0 < l.k (select ad x) (select ad y)) :
     (Cov.pow l p ad).kGrad x y
       = expand ad y.length ((l.kGrad (select ad x) (select ad y)).map fun bg =>
           p * (l.k (select ad x) (select ad y)) ^ (p - 1) * bg) := by
-  simp only [Cov.kGrad, rpow_real, hb, if_true]
+  simp only [Cov.kGrad, rpow_real, if_neg (powGuard_inactive (Or.inl (ne_of_gt hb)))]
+
+/-- The guard is inactive for EVERY non-zero base value (negative ones included) and, at a zero base
+    value, for every exponent `≥ 1`. -/
+theorem kgrad_pow_guard_inactive_of_ne (l : Cov ℝ) (p : ℝ) (ad : ActiveDims) (x y : List ℝ)
+    (hb : l.k (select ad x) (select ad y) ≠ 0 ∨ 1 ≤ p) :
+    (Cov.pow l p ad).kGrad x y
+      = expand ad y.length ((l.kGrad (select ad x) (select ad y)).map fun bg =>
+          p * (l.k (select ad x) (select ad y)) ^ (p - 1) * bg) := by
+  simp only [Cov.kGrad, rpow_real, if_neg (powGuard_inactive hb)]
+
+/-! ### natural-number powers of a base of any sign
+
+For `p = m ∈ ℕ`, `m ≥ 1`, the value `base ** m` is the ordinary `m`-fold product (`pow_value_nat`), which is
+differentiable at every base value, and the coded factor `m · base^(m−1)` is the ordinary monomial too
+(`pow_factor_nat`); both identities hold for negative and zero base values. -/
+
+/-- The value of a natural power node is the monomial `base^m` (no `exp ∘ log` convention involved). -/
+theorem pow_value_nat (l : Cov ℝ) (m : ℕ) (ad : ActiveDims) (x y : List ℝ) :
+    (Cov.pow l (m : ℝ) ad).k x y = (l.k (select ad x) (select ad y)) ^ m := by
+  simp only [Cov.k, rpow_real, Real.rpow_natCast]
+
+/-- The coded chain-rule factor for a natural exponent `m ≥ 1`: `m · base^(m−1)` with the monomial. -/
+theorem pow_factor_nat (b : ℝ) (m : ℕ) (hm : 1 ≤ m) :
+    (m : ℝ) * b ^ ((m : ℝ) - 1) = (m : ℝ) * b ^ (m - 1) := by
+  have e : ((m : ℝ) - 1) = ((m - 1 : ℕ) : ℝ) := by rw [Nat.cast_sub hm, Nat.cast_one]
+  rw [e, Real.rpow_natCast]
+
+/-- **Power rule, natural exponent, base of any sign (directional).**  For every operand `l` that is
+    `Regular` at the point and every `m ≥ 1`: the monomial `y ↦ k_l(x, y)^m` has directional derivative
+    `m · base^(m−1) · ⟨∇k_l, u⟩`, and that is exactly what the exact-division recursion returns for
+    `Pow(l, m)` — whether the base value is negative, zero or positive. -/
+theorem kgrad_pow_nat_directional (l : Cov ℝ) (m : ℕ) (hm : 1 ≤ m) (ad : ActiveDims) (x y u : List ℝ)
+    (hxy : x.length = y.length) (hu : u.length = y.length)
+    (hwf : (Cov.pow l (m : ℝ) ad).WF y.length = true)
+    (hreg : l.Regular (select ad x) (select ad y)) :
+    HasDerivAt (fun t => (l.k (select ad x) (select ad (lineAt y u t))) ^ m)
+        ((m : ℝ) * (l.k (select ad x) (select ad y)) ^ (m - 1)
+          * dot (l.kGradE 0 (select ad x) (select ad y)) (select ad u)) 0
+      ∧ dot ((Cov.pow l (m : ℝ) ad).kGradE 0 x y) u
+          = (m : ℝ) * (l.k (select ad x) (select ad y)) ^ (m - 1)
+            * dot (l.kGradE 0 (select ad x) (select ad y)) (select ad u) := by
+  have hval : dot ((Cov.pow l (m : ℝ) ad).kGradE 0 x y) u
+      = (m : ℝ) * (l.k (select ad x) (select ad y)) ^ (m - 1)
+        * dot (l.kGradE 0 (select ad x) (select ad y)) (select ad u) := by
+    simp only [Cov.kGradE, rpow_real,
+      if_neg (powGuard_inactive (b := l.k (select ad x) (select ad y)) (p := (m : ℝ))
+        (Or.inr (by exact_mod_cast hm)))]
+    rw [dot_expand_select ad y u _ hu,
+      dot_map_left (fun bg => (m : ℝ) * l.k (select ad x) (select ad y) ^ ((m : ℝ) - 1) * bg)
+        ((m : ℝ) * l.k (select ad x) (select ad y) ^ ((m : ℝ) - 1)) (by intro gi; ring),
+      pow_factor_nat _ m hm]
+  refine ⟨?_, hval⟩
+  have h := kGradE_zero_line (Cov.pow l (m : ℝ) ad) x y u hxy hu hwf ⟨hreg, Or.inr ⟨m, hm, rfl⟩⟩
+  rw [hval] at h
+  have hfun : (fun t => (Cov.pow l (m : ℝ) ad).k x (lineAt y u t))
+      = fun t => (l.k (select ad x) (select ad (lineAt y u t))) ^ m := by
+    funext t; exact pow_value_nat l m ad x _
+  rwa [hfun] at h
+
+/-- **Power rule, natural exponent, base of any sign (entrywise).**  `(kGradE 0 (Pow(l, m)) x y)[j]` is the
+    partial derivative `∂/∂y_j` of the monomial `k_l(x, y)^m`. -/
+theorem kgrad_pow_nat_partial (l : Cov ℝ) (m : ℕ) (hm : 1 ≤ m) (ad : ActiveDims) (x y : List ℝ) (j : Nat)
+    (hxy : x.length = y.length) (hwf : (Cov.pow l (m : ℝ) ad).WF y.length = true)
+    (hreg : l.Regular (select ad x) (select ad y)) :
+    HasDerivAt (fun t => (l.k (select ad x) (select ad (y.set j t))) ^ m)
+      (((Cov.pow l (m : ℝ) ad).kGradE 0 x y).getD j 0) (y.getD j 0) := by
+  have h := kGradE_zero_partial (Cov.pow l (m : ℝ) ad) x y j hxy hwf ⟨hreg, Or.inr ⟨m, hm, rfl⟩⟩
+  have hfun : (fun t => (Cov.pow l (m : ℝ) ad).k x (y.set j t))
+      = fun t => (l.k (select ad x) (select ad (y.set j t))) ^ m := by
+    funext t; exact pow_value_nat l m ad x _
+  rwa [hfun] at h
+
+/-- **`Pow(Linear, m)`, the case of the repaired defect**: for every natural `m ≥ 1`, every length scale
+    and every pair of points — negative, zero (orthogonal) and positive dot products alike — the CODED
+    gradient `kGrad` (no guard factor: no distance-based leaf) is the partial derivative of
+    `y ↦ (⟨x, y⟩/ls)^m`. -/
+theorem kgrad_pow_linear_eq (ls : ℝ) (adl ad : ActiveDims) (m : ℕ) (hm : 1 ≤ m) (x y : List ℝ) (j : Nat)
+    (hxy : x.length = y.length) (hwf : (Cov.pow (.linear ls adl) (m : ℝ) ad).WF y.length = true) :
+    HasDerivAt (fun t => ((Cov.linear ls adl).k (select ad x) (select ad (y.set j t))) ^ m)
+      (((Cov.pow (.linear ls adl) (m : ℝ) ad).kGrad x y).getD j 0) (y.getD j 0) := by
+  have h := kgrad_pow_nat_partial (.linear ls adl) m hm ad x y j hxy hwf trivial
+  rwa [kGrad_eq_kGradE, Cov.GuardFree.kGradE_eq (.pow (.linear ls adl) (m : ℝ) ad) (by simp [Cov.GuardFree]) distEps 0]
+
+/-- The witness of the repaired defect, evaluated in the model: `(Linear(1.0) ** 2).k_grad([1,2])([-1,-1])`
+    is `2 · (−3) · [1, 2] = [−6, −12]` (base value `⟨x, y⟩ = −3 < 0`; the former guard returned `[0, 0]`), and
+    `(Linear(1.0) ** 1).k_grad([1,0])([0,1]) = [1, 0] = x/ls` at orthogonal points (base value exactly `0`). -/
+theorem kgrad_pow_negative_base_example :
+    (Cov.pow (.linear (1:ℝ) .none) 2 .none).kGrad [1, 2] [-1, -1] = [-6, -12]
+    ∧ (Cov.pow (.linear (1:ℝ) .none) 1 .none).kGrad [1, 0] [0, 1] = [1, 0] := by
+  constructor
+  · simp only [Cov.kGrad, Cov.k, select, expand, dot, List.map, rpow_real]
+    norm_num
+  · simp only [Cov.kGrad, Cov.k, select, expand, dot, List.map, rpow_real]
+    norm_num
+
+/-- The statement that held for the former guard (`kgrad_pow_base_nonpos`: "base value not positive ⇒ every
+    entry is 0, for every exponent") is FALSE for the present code. -/
+theorem kgrad_pow_base_nonpos_is_false :
+    ¬ ∀ (l : Cov ℝ) (p : ℝ) (ad : ActiveDims) (x y : List ℝ), ¬ 0 < l.k (select ad x) (select ad y) →
+        ∀ v ∈ (Cov.pow l p ad).kGrad x y, v = 0 := by
+  intro h
+  have h1 := h (.linear 1 .none) 2 .none [1, 2] [-1, -1] (by simp [Cov.k, select, dot]; norm_num)
+  rw [kgrad_pow_negative_base_example.1] at h1
+  have := h1 (-6) (by simp)
+  norm_num at this
 
 /-- Selection is a linear coordinate map and the scatter-add its transpose:
     `⟨expand ad d G, u⟩ = ⟨G, select ad u⟩` (repeated indices accumulate). -/
@@ -358,9 +496,19 @@ example : (Cov.matern32 (1:ℝ) (.list [0, 0])).isRadial = true := rfl
 example : (Cov.matern32 (1:ℝ) (.list [0, 0])).Regular [1, 2] [3, 4] := trivial
 example : ¬ (Cov.matern32 (1:ℝ) (.idx 0)).Reaches 2 1 := by
   simp [Cov.Reaches, ActiveDims.indices, resolveIdx]
-/-- the guard is reachable over ℝ: a Linear base with a negative value -/
-example : ¬ 0 < (Cov.linear (1:ℝ) .none).k (select .none [1]) (select .none [-1]) := by
+/-- a Linear base takes negative values (so `Regular`'s natural-exponent branch is not vacuous) … -/
+example : (Cov.linear (1:ℝ) .none).k (select .none [1]) (select .none [-1]) < 0 := by
   simp [Cov.k, select, dot]
+/-- … and the guard is reachable over ℝ: a Linear base at orthogonal points, exponent 1/2 -/
+example : (Cov.linear (1:ℝ) .none).k (select .none [1, 0]) (select .none [0, 1]) = 0 ∧ (0.5:ℝ) < 1 := by
+  constructor
+  · simp [Cov.k, select, dot]
+  · norm_num
+example : Cov.Smooth (.add (.pow (.mul (.linear (1:ℝ) .none) (.matern52 1 .none) .none) 3 .none)
+    (.pow (.addC (.linear 2 .none) 0.1 .none) 2 .none) .none) := by
+  refine ⟨⟨⟨trivial, trivial⟩, Or.inr ⟨3, by norm_num, by norm_num⟩⟩, ⟨trivial, Or.inr ⟨2, by norm_num, by norm_num⟩⟩⟩
+example : (Cov.pow (.linear (1:ℝ) .none) 2 .none).Regular [1, 2] [-1, -1] :=
+  ⟨trivial, Or.inr ⟨2, by norm_num, by norm_num⟩⟩
 example : Cov.GuardFree (.mulC (.linear (2:ℝ) .none) 3 (.idx 0)) := by simp [Cov.GuardFree]
 
 end Mellon.C11
